@@ -5,6 +5,7 @@ package main
 // client with a hostile AuthFunc, or a raw TLS client that performs the exporter computation itself.
 
 import (
+	"context"
 	"crypto/ecdsa"
 	"crypto/ed25519"
 	"crypto/elliptic"
@@ -204,11 +205,15 @@ func (e *netEnv) stopAll() {
 // rawDial opens a TLS connection like the library's client does and returns it with this connection's channel binding.
 func (e *netEnv) rawDial(addr string) (*tls.Conn, []byte, error) {
 	conf := &tls.Config{RootCAs: e.pool, MinVersion: tls.VersionTLS13, SessionTicketsDisabled: true}
-	d := &net.Dialer{Timeout: 3 * time.Second}
-	c, err := tls.DialWithDialer(d, "tcp", addr, conf)
+	// the whole dial, TLS handshake included, is bounded: a service that no longer accepts connections must not hang the harness
+	ctx, cancel := context.WithTimeout(context.Background(), 10*time.Second)
+	defer cancel()
+	d := &tls.Dialer{NetDialer: &net.Dialer{Timeout: 3 * time.Second}, Config: conf}
+	nc, err := d.DialContext(ctx, "tcp", addr)
 	if err != nil {
 		return nil, nil, err
 	}
+	c := nc.(*tls.Conn)
 	cs := c.ConnectionState()
 	b, err := cs.ExportKeyingMaterial("MPC", []byte("MPC"), 32)
 	if err != nil {
